@@ -67,7 +67,8 @@ static int k_gemv(const case_t *c, rng_t *rng, csc_t *G, int gemm)
             }
             size_t yi = gemm ? (size_t)v * ldc + i : (size_t)(incy > 0 ? i * ay : (leny - 1 - i) * ay);
             ref_t want = E2R(alpha) * s + E2R(beta) * E2R(y0[yi]);
-            ld bound = gam((ld)kmax + 3) * (rabs(E2R(alpha)) * as + rabs(E2R(beta)) * rabs(E2R(y0[yi]))) * (IS_COMPLEX ? 2 : 1);
+            ld bound = gam((ld)kmax + 3) * (rabs(E2R(alpha)) * as + rabs(E2R(beta)) * rabs(E2R(y0[yi]))) * (IS_COMPLEX ? 2 : 1)
+                       + 8 * (ld)(kmax + 3) * HX_UFL * (1 + rabs(E2R(alpha)));   /* underflowed products */
             ld e = rabs(E2R(y[yi]) - want);
             ld ratio = e == 0 ? 0 : (bound == 0 ? 1e300L : e / bound);
             if (!(e == e)) ratio = 1e300L;
